@@ -126,10 +126,86 @@ def _apply_inserts(body, inserts, where, log=None):
     return body
 
 
-def _transform_fn(item, spec, log, where):
+_KNOWN_FN_TEXT = [""]   # prelude + spec text of the unit being built (names declared there are never inlined)
+
+
+def _split_args(text):
+    """split a call's argument text at top-level commas"""
+    out, depth, cur = [], 0, ""
+    for ch in text:
+        if ch in "([{":
+            depth += 1
+        elif ch in ")]}":
+            depth -= 1
+        if ch == "," and depth == 0:
+            out.append(cur.strip())
+            cur = ""
+        else:
+            cur += ch
+    if cur.strip():
+        out.append(cur.strip())
+    return out
+
+
+def _single_expression_helpers(src, masked, imp, methods):
+    """Rule I1: private helper methods of the impl (not under contract, not declared by the unit) whose body is ONE expression
+    and whose parameters are plain `name: Type` (no self): {name: (params, expression)}"""
+    helpers = {}
+    for m in re.finditer(r"\bfn\s+(\w+)", masked[imp.body_open:imp.end]):
+        kpos = imp.body_open + m.start()
+        if rsitems.depth_at(masked, kpos, imp.body_open) != 1:
+            continue
+        name = m.group(1)
+        if name in methods or re.search(r"\bfn\s+%s\b" % re.escape(name), _KNOWN_FN_TEXT[0]):
+            continue
+        fitem = rsitems._item_from_kw(src, masked, kpos)
+        sig = fitem.signature
+        if re.search(r"\bpub\b", sig.split("fn")[0]) or "<" in sig.split("(")[0]:
+            continue
+        pm = re.search(r"\((.*)\)\s*(->.*)?$", sig, flags=re.S)
+        if not pm:
+            continue
+        params = []
+        ok = True
+        for prm in _split_args(pm.group(1)):
+            mm = re.match(r"^(\w+)\s*:\s*\S.*$", prm, flags=re.S)
+            if not mm or mm.group(1) in ("self", "mut"):
+                ok = False
+                break
+            params.append(mm.group(1))
+        body = rsitems.strip_attrs_and_docs(fitem.body).strip()
+        inner = "\n".join(l for l in body[1:-1].split("\n") if not l.strip().startswith("//")).strip()
+        if not ok or not inner or ";" in rsitems.mask(inner) or re.search(r"\b(let|return|loop|while|for)\b", rsitems.mask(inner)):
+            continue
+        helpers[name] = (params, inner)
+    return helpers
+
+
+def _inline_helpers(body, helpers, log, where):
+    """Rule I1: a call `Self::h(a, b)` of a single-expression helper with simple arguments (paths, optionally behind & or *)
+    is replaced by the helper's expression with the arguments substituted for the parameters."""
+    for name, (params, expr) in helpers.items():
+        pat = re.compile(r"\bSelf::%s\(((?:[^()]|\((?:[^()]|\([^()]*\))*\))*)\)" % re.escape(name))
+        def _repl(m):
+            args = _split_args(m.group(1))
+            if len(args) != len(params) or not all(re.match(r"^&?\s*(mut\s+)?\*?[\w.]+$", a) for a in args):
+                return m.group(0)
+            out = expr
+            for prm, a in zip(params, args):
+                out = re.sub(r"\b%s\b" % re.escape(prm), lambda _m, a=a: "\0%s\0" % a, out)
+            out = out.replace("\0", "")
+            log.append({"rule": "I1", "site": where, "pattern": "Self::%s(%s)" % (name, m.group(1)), "replacement": out, "count": 1})
+            return "(" + out + ")"
+        body = pat.sub(_repl, body)
+    return body
+
+
+def _transform_fn(item, spec, log, where, helpers=None):
     """item: rsitems.Item of a fn; spec: dict(contract, sig_rewrites, rewrites, loops, body_start, body_end, attrs)."""
     sig = item.signature
     body = item.body
+    if helpers:
+        body = _inline_helpers(body, helpers, log, where)
     # rule B1: names of locals that the ghost text mentions are READ from the code (`bind`: NAME -> regex with one group, or
     # (regex, default)); `${NAME}` in the contract, the loop specs and the inserts stands for the captured identifier, so a
     # renamed local does not orphan the hints
@@ -193,6 +269,7 @@ def _extract_impl(src, imp, it, log, where):
     methods = it["methods"]
     seen = set()
     dropped = []
+    helpers = _single_expression_helpers(src, masked, imp, methods)
     for m in re.finditer(r"\bfn\s+(\w+)", masked[imp.body_open:imp.end]):
         kpos = imp.body_open + m.start()
         if rsitems.depth_at(masked, kpos, imp.body_open) != 1:
@@ -207,7 +284,7 @@ def _extract_impl(src, imp, it, log, where):
             out.append(keep)
         if name in methods:
             seen.add(name)
-            out.append(_transform_fn(fitem, methods[name], log, where + "::" + name))
+            out.append(_transform_fn(fitem, methods[name], log, where + "::" + name, helpers))
         elif it.get("keep_others"):
             out.append(fitem.text_no_attrs)
         else:
@@ -416,6 +493,7 @@ def build_unit(snapshot, unit):
     """Return (text, linemap, rule_log, functions_under_contract).
     linemap: list of (first_line, last_line, label, origin) for the generated file."""
     log = []
+    _KNOWN_FN_TEXT[0] = unit.get("prelude", "") + "\n" + unit.get("spec", "")
     chunks = []   # (label, text, origin)
     chunks.append(("header", unit.get("header", "") + "\nuse vstd::prelude::*;\n" + unit.get("uses", "") + "\nverus! {\n", None))
     chunks.append(("prelude", unit.get("prelude", ""), None))
